@@ -112,6 +112,30 @@ func (d *sdrv) restart() {
 	}
 }
 
+// crash: the process dies between two statements - the selected database's files are closed without
+// a flush - and start-up recovery runs over every database.
+func (d *sdrv) crash() {
+	d.cfg.tr.Op("crash")
+	res := "ok"
+	pm := hx.Catch(func() {
+		if d.sess.RelationService != nil {
+			d.sess.RelationService.VerifAbandon()
+		}
+	})
+	if pm != "" {
+		res = "panic"
+	}
+	if res == "ok" {
+		res = runInitStorage()
+	}
+	d.sess = &engine.Session{}
+	d.cur = ""
+	d.cfg.tr.Out("%s", res)
+	if res != "ok" {
+		d.dead = true
+	}
+}
+
 // report: SHOW DATABASES and, through a fresh session per database, every table's rows.
 func (d *sdrv) report() {
 	d.cfg.tr.Op("report")
@@ -399,6 +423,31 @@ func runSess(cfg *config) {
 		}
 		d.exec("SHOW DATABASES")
 	}, cfg.rng.Fork())
+	// scripted: the process dies while one of three databases is selected, with acknowledged rows of that
+	// database only in its log; recovery must redo them whichever position the database has in the
+	// directory listing - and leave the other two alone
+	for _, victim := range []string{"aa", "mm", "zz"} {
+		victim := victim
+		run(func(d *sdrv, r *hx.Rng) {
+			for _, n := range []string{"zz", "aa", "mm"} {
+				d.exec("CREATE DATABASE " + n)
+				d.exec("USE " + n)
+				d.exec("CREATE TABLE t1 (a int, b varchar(255))")
+				d.exec("INSERT INTO t1 VALUES (1, 'first in " + n + "')")
+			}
+			d.restart()
+			d.exec("USE " + victim)
+			d.exec("INSERT INTO t1 VALUES (2, 'only in the log')")
+			d.exec("UPDATE t1 SET b = 'changed' WHERE a = 1")
+			d.crash()
+			d.exec("USE " + victim)
+			d.exec("INSERT INTO t1 VALUES (3, 'after recovery')")
+			d.exec("SELECT * FROM t1")
+			d.crash()
+			d.exec("USE aa")
+			d.exec("SELECT * FROM t1")
+		}, nil)
+	}
 	// scripted: names that are not one plain directory name - a path separator, the directory itself
 	// or its parent, a name no file system holds - are refused and change nothing
 	run(func(d *sdrv, r *hx.Rng) {
@@ -521,8 +570,11 @@ func runSess(cfg *config) {
 						d.exec("INSERT INTO " + t + " (a, b) VALUES " + strings.Join(vs, ", "))
 					}
 				default:
-					if r.Chance(1, 3) {
+					switch r.Intn(6) {
+					case 0, 1:
 						d.restart()
+					case 2:
+						d.crash()
 					}
 				}
 				if r.Chance(1, 3) {
